@@ -57,3 +57,9 @@ package sr
 //@   modifies b.b
 //@   ensures old(len(b.b)) > 0 ==> err == nil && r == old(b.b[0]) && b.b == old(b.b[1:])
 //@   ensures old(len(b.b)) == 0 ==> err == io.EOF && b.b == old(b.b)
+
+// Serde.DecodeNew: a registration without a generator and without a Go type yields ErrNotRegistered - reflect.New is
+// only ever handed a non-nil type (reflect.New(nil) panics).
+//@ func (s *Serde) DecodeNew(b []byte) (v any, err error)
+//@   prop C36
+//@   site call New#0 assert [reflect-new-only-on-a-registered-type] arg0 != nil
